@@ -22,3 +22,7 @@ claim("C20", "DESIGN.md 5/C20",
       "Lean 4 noninterference theorems on a model of every log record both sides emit (server parse_command censoring, reply echo, client command/parse_line) + decision that the set of logging call sites in the source equals the modelled one + canary differential run with a capturing log handler on real client/server",
       "server/client/session noninterference hold for all passwords of equal (rstripped) length; call_sites is re-decided against the current source; the canary run scans every formatted record including tracebacks.",
       "Trusted: Lean kernel; 'login' means PASS<SP>pw on one decodable line without LF (LF injection is a recorded finding); MemoryUserManager.")
+claim("C13", "DESIGN.md 5/C13",
+      "Lean 4 program model of every command's backend calls (built from the regenerated decorator stacks + transcribed bodies) with theorems for every verb, shape and fault index (last reply 451, never a success reply; data connection closed once the mark was given, except the proved open-of-file-transfer witness) + exhaustive fault injection at every backend call of every command situation on the real server, call sequences and outcomes compared with the model",
+      "fault_contained / fault_closes_data_partial are unbounded (any number of entries/blocks, any k); the injection run is exhaustive over the situation table x every call index x two backends and checks session/other-session usability afterwards.",
+      "Trusted: Lean kernel; a backend failure is an exception inside the backend method; in-memory network.")
